@@ -57,12 +57,11 @@ GUARDS = [
     (r"self\.in_scope\(table_scope,\|\.\.\|\{self\.elem_in\(a1,td_th\).*", "td-or-th-in-table-scope"),
     (r"self\.in_scope\(table_scope,\|\.\.\|\{self\.elem_in\(a1,table_outer\).*", "tbody-thead-tfoot-in-table-scope"),
     (r"self\.is_type_hidden\(p2\.0\)", "input-type-hidden"),
-    (r"self\.form_elem\.is_some\(\)", "form-pointer-set"),
+    (r"self\.form_elem matches Some\(_\)", "form-pointer-set"),
     (r"self\.form_elem\.take\(\) matches Some\(_\)", "form-pointer-set"),
     (r"self\.in_scope\(default_scope,\|\.\.\|\{self\.sink\.same_node\(self\.form_elem\.take\(\)\.0,a1\).*", "form-node-in-scope"),
-    (r"self\.form_elem\.is_none\(\)", "!form-pointer-set"),
     (r"self\.frameset_ok\.get\(\)", "frameset-ok"),
-    (r"self\.body_elem\(\)\.(cloned\(\)|map\(\|\.\.\|\{a1\}\)) matches Some\(_\)", "has-body-elem"),
+    (r"self\.body_elem\(\)(\.(cloned\(\)|map\(\|\.\.\|\{a1\}\)))? matches Some\(_\)", "has-body-elem"),
     (r"\(self\.open_elems\.len\(\) == 1\)", "stack-has-one-element"),
 ]
 # guards that belong to a macro region / are decided by the token class and are not conditions of the row
